@@ -59,6 +59,9 @@ def run(ctx):
                 # find leaves: as_secs(d) and subsec_nanos(d)
                 secs = [s for s in values.subterms(expr) if is_call(s, "Duration::as_secs")]
                 nanos = [s for s in values.subterms(expr) if is_call(s, "Duration::subsec_nanos")]
+                derived = {"as_micros": lambda S, N: S * 10 ** 6 + N // 1000, "as_millis": lambda S, N: S * 1000 + N // 10 ** 6,
+                           "as_nanos": lambda S, N: S * 10 ** 9 + N, "subsec_micros": lambda S, N: N // 1000, "subsec_millis": lambda S, N: N // 10 ** 6}
+                others = [s for s in values.subterms(expr) if is_call(s) and callee_name(s[1]) in derived and "Duration" in s[1]]
                 bad = None
                 try:
                     for S, Nn in ((0, 0), (1, 0), (0, 999), (0, 1000), (1, 999999999), (1759400000, 123456789), (7258118400, 500000000), (253402300799, 999999999)):
@@ -67,6 +70,8 @@ def run(ctx):
                             env[s] = S
                         for n in nanos:
                             env[n] = Nn
+                        for o in others:
+                            env[o] = derived[callee_name(o[1])](S, Nn)
                         got = arith_eval(expr, env)
                         want = S * U + (Nn * U) // 10 ** 9
                         if got != want:
@@ -74,11 +79,11 @@ def run(ctx):
                             break
                 except NotArith as e:
                     bad = "not plain arithmetic over as_secs/subsec_nanos (%s): %s" % (e, fmt(expr))
-                ctx.check("units", "%s/MIDP-expression" % v, bad is None and bool(secs), "MIDP = secs*%d + nanos*%d/10^9 (truncating)" % (U, U),
+                ctx.check("units", "%s/MIDP-expression" % v, bad is None and bool(secs or others), "MIDP = secs*%d + nanos*%d/10^9 (truncating)" % (U, U),
                           "MIDP for %s is wrong: %s" % (v, bad or "does not use as_secs()"), ms.loc(wb))
                 # d = duration_since(now param, epoch)
                 ds = set()
-                for s in secs + nanos:
+                for s in secs + nanos + others:
                     ds.add(values.strip_payload(s[2][0]))
                 okd = len(ds) == 1 and is_call(next(iter(ds)), "SystemTime::duration_since") and next(iter(ds))[2][0] == ("param", ms.path, 3)
                 ctx.check("clock", "%s/MIDP-from-now-parameter" % v, okd, "MIDP is computed from the `now` parameter's duration since the epoch only",
